@@ -12,7 +12,7 @@
 (***************************************************************************)
 EXTENDS Integers, Sequences, TLC, Json
 
-Sels     == {"cols", "aliases", "aggs", "aggs2", "index"}      \* index: chained subscripts / map keys / nested paths as select items
+Sels     == {"cols", "aliases", "aggs", "aggs2", "index", "longitem"}      \* index: chained subscripts / map keys / nested paths as select items
 Wheres   == {"none", "cmp", "kwlit", "andor", "long"}      \* long: a conjunction of 45 comparisons (far more than 100 tokens)
 Windows  == {"none", "tumbling", "sliding", "counting", "session", "global"}
 Havings  == {"none", "alias", "agg"}
@@ -31,6 +31,7 @@ WellFormed ==
   /\ (with # "none" => win \in {"tumbling", "sliding", "session"})
   /\ (order # "none" => Agg(sel))
   /\ (join # "none" => sel \in {"cols", "aliases", "index"})
+  /\ (sel = "longitem" => join = "none" /\ ~distinct)          \* longitem: one select item of far more than 100 tokens (a CASE with 24 branches)
   /\ (distinct => sel # "aggs2")
   /\ (win = "global" => having = "none" /\ order = "none")
   /\ (win \in {"none", "global"} => gbl = "kw")
